@@ -329,7 +329,10 @@ def valid_case(it):
         for e in case[5]:
             if not (e == [1] or (len(e) == 2 and e[0] == 0 and e[1] in futs)):
                 return False
-        return bool(it.get("compare", True)) == (not (kinds_in(tree) & LEPTOS_KINDS))
+        ks = kinds_in(tree)
+        if (ks & LEPTOS_KINDS) and (ks & {4, 5, 6, 7}):
+            return False      # the harness' call-pattern views do not resolve their children
+        return bool(it.get("compare", True)) == (not (ks & LEPTOS_KINDS))
     except Exception:
         return False
 
@@ -657,41 +660,44 @@ def render_tree(t):
 
 
 # ------------------------------------------------------------------ known findings
-def end_flag(v, flag):
+def end_flag(v, flag, dropped=frozenset()):
     """is the position NextChildAfterText after the resolved render of v entered with `flag`"""
-    return py_render(v, flag)[1]
+    return py_render(v, flag, dropped)[1]
 
 
-def pos_free(ooo, v, flag, init, strict, in_suspense=False):
+def pos_free(ooo, v, flag, init, strict, in_suspense=False, dropped=frozenset()):
     """no asynchronous node that may be pending when it is rendered hands back a position whose
     'after text' bit differs from the one its resolved content leaves (mirrors
-    StreamProofs.pos_free for the modelled kinds)"""
+    StreamProofs.pf for the modelled kinds)"""
     k = v[0]
+    rec = lambda c, fl, st, ins=in_suspense: pos_free(ooo, c, fl, init, st, ins, dropped)
     if k in (0, 6):
         return True
     if k == 1:
-        return pos_free(ooo, v[2], False, init, strict, in_suspense)
+        return rec(v[2], False, strict)
     if k == 2:
         for c in v[1:]:
-            if not pos_free(ooo, c, flag, init, strict, in_suspense):
+            if not rec(c, flag, strict):
                 return False
-            flag = end_flag(c, flag)
+            flag = end_flag(c, flag, dropped)
         return True
     if k in (3, 4):
         content = v[2] if k == 3 else (v[3] if v[4] else v[2])
+        if k == 3 and v[1] in dropped:
+            return True
         if k == 3 and in_suspense:
-            return pos_free(ooo, content, flag, init, strict, in_suspense)   # never a chunk of its own
+            return rec(content, flag, strict)      # never a chunk of its own
         if not strict and v[1] in init:
-            return pos_free(ooo, content, flag, init, strict, in_suspense)
+            return rec(content, flag, strict)
         handed = flag if ooo else False
-        return end_flag(content, flag) == handed and pos_free(ooo, content, flag, init, True, in_suspense)
+        return end_flag(content, flag, dropped) == handed and rec(content, flag, True)
     if k in (5, 10):
-        return pos_free(ooo, v[1], flag, init, strict, in_suspense)
+        return rec(v[1], flag, strict)
     if k == 7:
-        return pos_free(ooo, v[2], flag, init, True, in_suspense)
+        return rec(v[2], flag, True)
     if k in (11, 12):
         handed = flag if ooo else False
-        return end_flag(v[2], flag) == handed and pos_free(ooo, v[2], flag, init, True, True)
+        return end_flag(v[2], flag, dropped) == handed and rec(v[2], flag, True, True)
     return True
 
 
@@ -742,13 +748,14 @@ def _classify(item, impl, model):
     # F-C07-f: exactly the content of some un-awaited nested Suspends is missing;
     # F-C07-a: a pending asynchronous node handed back a stale position, and the documents differ
     # only in <!> separators next to text.  (Both can occur in one case.)
-    stale = not pos_free(ooo, tree, False, set(init), False)
     ns = nested_suspends(tree)
     for r in range(0, len(ns) + 1):
         for sub in itertools.combinations(ns, r):
-            want = tree_of(py_render(tree, False, frozenset(sub))[0])
+            sub = frozenset(sub)
+            want = tree_of(py_render(tree, False, sub)[0])
             if r > 0 and got == want:
                 return "F-C07-f"
+            stale = not pos_free(ooo, tree, False, set(init), False, False, sub)
             if stale and H.strip_markers(got) == H.strip_markers(want):
                 return "F-C07-f" if r > 0 else "F-C07-a"
     return None
